@@ -182,13 +182,13 @@ impl BufferManager {
         // Check if we can allocate
         let current = self.allocated.load(Ordering::Relaxed);
 
-        if current + size > self.hard_limit {
+        if size > usize::MAX - current || current + size > self.hard_limit {
             // Try eviction first
             self.run_eviction_cycle(true);
 
             // Check again
             let current = self.allocated.load(Ordering::Relaxed);
-            if current + size > self.hard_limit {
+            if size > usize::MAX - current || current + size > self.hard_limit {
                 return None;
             }
         }
@@ -365,12 +365,12 @@ impl GrantReleaser for BufferManager {
     fn try_allocate_raw(&self, size: usize, region: MemoryRegion) -> bool {
         let current = self.allocated.load(Ordering::Relaxed);
 
-        if current + size > self.hard_limit {
+        if size > usize::MAX - current || current + size > self.hard_limit {
             // Try eviction
             self.run_eviction_cycle(true);
 
             let current = self.allocated.load(Ordering::Relaxed);
-            if current + size > self.hard_limit {
+            if size > usize::MAX - current || current + size > self.hard_limit {
                 return false;
             }
         }
